@@ -187,7 +187,7 @@ Proof. exact auth_monitor_accepts_model. Qed.
 Print Assumptions C19_monitor_accepts_model.
 
 Theorem C19_proxy_monitor_accepts_model : forall (mac : str -> str -> str) base secret secure origin_form host clock now,
-  mac_wf mac -> host_plain host = true -> host <> [] -> (clock <= now <= clock + 60)%Z ->
+  host <> [] -> (clock <= now <= clock + 60)%Z ->
   let r := proxy_sign_out mac base secret secure origin_form host now in
   proxy_holds mac {| po_base := base; po_secret := secret; po_secure := secure; po_origin_form := origin_form;
                      po_host := host; po_clock := clock; po_ts := now; po_status := p_status r;
